@@ -1,10 +1,12 @@
 package main
 
 import (
+	"encoding/hex"
 	"fmt"
 	"os"
 	"path/filepath"
 	"strings"
+	"verifharness/internal/hx"
 )
 
 // c06Consumers: every command that CONSUMES a migration directory validates it first – whichever flag the
@@ -12,7 +14,7 @@ import (
 // URL with a parent, absolute URL). The directory is written by `migrate diff`, then a statement is appended
 // to its file without re-hashing: each command must refuse with the checksum error and must not act on the
 // tampered content; on the untouched copy the same command succeeds.
-func c06Consumers(e *Env, work string) {
+func c06Consumers(e *Env, work string, pool *hx.Pool) {
 	const schemaSQL = "CREATE TABLE users (id integer NOT NULL, name text NULL, PRIMARY KEY (id));\n"
 	root := filepath.Join(work, "c06cons")
 	os.RemoveAll(root)
@@ -113,6 +115,40 @@ func c06Consumers(e *Env, work string) {
 		{"schema apply --to <dir>", func(d string, k int) []string {
 			return []string{"schema", "apply", "--url", fmt.Sprintf("sqlite://live%d.db", k), "--to", d, "--dev-url", dev, "--auto-approve"}
 		}},
+	}
+	// what the Lean model of Validate (Atlas.Hash.validate; Props.C06.validate_detects / sumfile_edit_detected) says
+	// about each of the directories the commands are pointed at: the untouched one validates, every damaged one
+	// does not - so a command that acts on a damaged directory acts on what the model refuses
+	modelSays := func(rel string) string {
+		var fs []c06File
+		names, _ := filepath.Glob(filepath.Join(root, rel, "*.sql"))
+		for _, p := range names {
+			b, _ := os.ReadFile(p)
+			fs = append(fs, c06File{filepath.Base(p), string(b)})
+		}
+		req := map[string]any{"op": "hash.validate", "files": hexFiles(fs)}
+		if b, err := os.ReadFile(filepath.Join(root, rel, "atlas.sum")); err == nil {
+			req["sum"] = hex.EncodeToString(b)
+		}
+		var out c06Out
+		if err := pool.AskInto(req, &out); err != nil {
+			return "model-error"
+		}
+		return out.Res
+	}
+	rels := []string{"migs", "sub/migs"}
+	for _, k := range sumKinds {
+		rels = append(rels, "sum_"+k)
+	}
+	if r := modelSays("good"); r != "ok" {
+		e.Res.Disagree()
+		e.Res.Violate("no-failing-input-found", "corr-hash-mismatch", "the model does not validate the untouched directory written by `migrate diff`: "+r, "correspondence Atlas.Hash.validate (consumers)", map[string]any{"case": "good"})
+	}
+	for _, rel := range rels {
+		if r := modelSays(rel); r == "ok" {
+			e.Res.Disagree()
+			e.Res.Violate("no-failing-input-found", "corr-hash-mismatch", "the model validates the damaged directory "+rel, "correspondence Atlas.Hash.validate (consumers)", map[string]any{"case": rel})
+		}
 	}
 	addrs := []struct{ name, good, bad string }{
 		{"relative URL", "file://good", "file://migs"},
